@@ -606,7 +606,6 @@ func (hc *connectUnaryHandlerConn) Close(err error) error {
 	// whatever the error's metadata (merged into the headers above) says.
 	hc.responseWriter.Header().Set(headerContentType, connectUnaryContentTypeJSON)
 	hc.responseWriter.Header().Del(connectUnaryHeaderCompression)
-	hc.responseWriter.WriteHeader(connectCodeToHTTP(CodeOf(err)))
 	var wire *connectWireError
 	if connectErr, ok := asError(err); ok {
 		wire = (*connectWireError)(connectErr)
@@ -615,8 +614,16 @@ func (hc *connectUnaryHandlerConn) Close(err error) error {
 	}
 	data, marshalErr := json.Marshal(wire)
 	if marshalErr != nil {
+		// The error can't be rendered as JSON (a detail of a type that isn't
+		// linked in, for example). The peer still needs to hear that the call
+		// failed, so say that much - as the gRPC protocols do.
+		wire = (*connectWireError)(errorf(CodeInternal, "marshal error: %w", marshalErr))
+		data, marshalErr = json.Marshal(wire)
+	}
+	hc.responseWriter.WriteHeader(connectCodeToHTTP((*Error)(wire).Code()))
+	if marshalErr != nil {
 		_ = hc.request.Body.Close()
-		return errorf(CodeInternal, "marshal error: %w", err)
+		return errorf(CodeInternal, "marshal error: %w", marshalErr)
 	}
 	if _, writeErr := hc.responseWriter.Write(data); writeErr != nil {
 		_ = hc.request.Body.Close()
@@ -725,6 +732,13 @@ func (m *connectStreamingMarshaler) MarshalEndStream(err error, trailer http.Hea
 		}
 	}
 	data, marshalErr := json.Marshal(end)
+	if marshalErr != nil && end.Error != nil {
+		// The error can't be rendered as JSON (a detail of a type that isn't
+		// linked in, for example). The peer still needs an end-of-stream message
+		// saying that the call failed - as the gRPC protocols send.
+		end.Error = (*connectWireError)(errorf(CodeInternal, "marshal end stream: %w", marshalErr))
+		data, marshalErr = json.Marshal(end)
+	}
 	if marshalErr != nil {
 		return errorf(CodeInternal, "marshal end stream: %w", marshalErr)
 	}
